@@ -243,7 +243,7 @@ fn check(ctx: &Ctx, c: &Case) -> PResult {
                     (3, 0) => 1 << 20,
                     (3, 1) => 1 << 24,
                     (3, _) => 1 << 27,
-                    (_, 0) => 1 << 40,
+                    (_, 0) => 1 << 28,
                     (_, 1) => 1 << 61,
                     (_, 2) => (1 << 62) + 12345,
                     _ => usize::MAX >> 1,
